@@ -287,3 +287,8 @@ def run(ctx):
     for rr in ctx.rules:
         if rr.id == "C11.R9":
             rr.id = "C13.R7"
+    from . import c17
+    ctx.guard(c17.rule_r10)          # popping the pipe id off a raw backtrace keeps the rest of the backtrace intact
+    for rr in ctx.rules:
+        if rr.id == "C17.R10":
+            rr.id = "C13.R9"
